@@ -15,8 +15,9 @@ lowered with clang, translated to C (ir2c --yield: a hook before each atomic acc
      The environment inserts a key only if it is not in the table at that moment: that is exactly the guarantee (b)
      proves for the operation itself, so the argument is rely/guarantee-closed for any number of lanes doing get().
 
-Two CBMC native threads each running get() were NOT used: CBMC's concurrency mode rejects dereferences of pointers read
-from shared memory (bucket heads and Next links are such pointers); see coverage["outside"].
+Two CBMC native threads each running get() were tried and are NOT usable: CBMC stops with "pointer handling for concurrency
+is unsound" (bucket heads and Next links are pointers read from shared memory); see coverage["outside"].
+ (c) ConcurrentFlyweight<SeqConcurrentLanes,int>::findOrInsert, sequential, from a symbolic table / lane state (slot reservation).
 Outside: growth under lock-all (tryGrow is cut out and asserted unreachable), iteration across growth, the constructor,
 ConcurrentFlyweight (slot reservation), SymbolTableImpl / RecordTableImpl (std::string, per-arity maps), weak memory."""
 import os
@@ -315,7 +316,7 @@ def _configs(tier):
             for pre in (0, 1, 2, 3):
                 for env in (0, 1, 2):
                     cfgs.append((pre, env, nb, 16))
-            cfgs += [(3, 0, nb, 0), (2, 1, nb, 0), (3, 1, nb, 0), (2, 2, nb, 0), (3, 2, nb, 0)]
+        cfgs += [(3, 0, 1, 0), (2, 1, 1, 0), (2, 2, 1, 0), (3, 2, 1, 0), (2, 1, 2, 0)]
     return cfgs
 
 
@@ -637,7 +638,7 @@ def _fw_configs(tier):
 def _fw_obligation(pf, cfg, tier):
     pre, nb = cfg
     name = "findOrInsert/indexed-keys=%d/buckets=%d" % (pre, nb)
-    return K.Obligation(name, [pf["h"]], defines=["PRE=%d" % pre, "NB=%d" % nb], unwind=pre + 3, timeout=120 if tier == "quick" else 900,
+    return K.Obligation(name, [pf["h"]], defines=["PRE=%d" % pre, "NB=%d" % nb], unwind=max(pre + 2, 3), timeout=120 if tier == "quick" else 900,
                         extra=["--pointer-check", "--bounds-check"], includes=[os.path.dirname(pf["h"])],
                         meta={"indexed_keys": pre, "buckets": nb, "lane_state": "no reservation / reserved slot with prepared node (symbolic)",
                               "NextSlot": "symbolic <= 6 of 8 slots", "FirstSlotIsReserved": "both", "_fw": cfg})
@@ -776,8 +777,8 @@ def run(tier, seed, only=None):
             "samples": [o.sample() for o in obls],
             "dropped_from_the_claim": dropped,
             "outside": [
-                "two (or more) native CBMC threads each running get(): CBMC's concurrency mode rejects dereferences of pointers read from shared memory "
-                "(bucket heads, Next links); replaced by the environment-insertion model above, which is exact for what another lane's get() does to shared memory under SC",
+                "two (or more) native CBMC threads each running get(): measured, CBMC 6.11 stops with `pointer handling for concurrency is unsound` after 2.6 s "
+                "(its concurrency mode rejects dereferences of pointers read from shared memory: bucket heads, Next links); replaced by the environment-insertion model above, which is exact for what another lane's get() does to shared memory under SC",
                 "growth: tryGrow (lock-all, rehash) is cut out of the IR and asserted unreachable (MaxSizeBeforeGrow = 1000); iteration across growth",
                 "the constructor (ToPrime table, >= 13 buckets): the table is set up with 1 or 2 buckets by the harness",
                 "ConcurrentFlyweight: concurrent findOrInsert (two lanes racing for the same key: only the hash-map level is covered by (b)), growth of the slot "
